@@ -261,6 +261,7 @@ func runC07(c *Ctx, tier string) {
 		}
 	}
 	runNullsFirstSortNotPropagated(c, "C07-N3")
+	runJoinSidesSwapTogether(c, "C07-J1")
 }
 
 func fnParams(p *Prog, fn *ssa.Function) []string {
@@ -547,6 +548,7 @@ func runC08(c *Ctx, tier string) {
 	if nMerge == 0 {
 		c.Fail("C08-M1", "parallelizeSeqScan merge key", fn.Pos(), "parallelizeSeqScan never builds a Merge")
 	}
+	runMergeHeapRootOnly(c, "C08-M3")
 }
 
 func init() {
